@@ -5,10 +5,14 @@ from .interp import NAN, U64, Iter, LV, Obj, Opt, Sc, SharedPtr, Vec, box, val
 from .r_reg import BSE, Cases, World, fmt, index_reps, windows
 
 
+EXTENDED_FROM = 9
+
+
 def _ns(lo, hi, ns):
     """Grid sizes handled by this job: lo..hi, or the explicit subset ns."""
     full = range(lo, hi + 1)
-    return [n for n in full if ns is None or n in ns]
+    ext = [n for n in (ns or ()) if n > hi and n >= EXTENDED_FROM]   # threshold extension (r_reg.run_jobs), sparse windows
+    return [n for n in full if ns is None or n in ns] + ext
 
 
 # ------------------------------------------------------------------------------------------------
